@@ -94,6 +94,25 @@ def run(chk):
                 chk.violation("impl", "predict-raises", f"predict raised {type(e).__name__}: {e}", case)
                 continue
             ctx = {**case, "observed": np.asarray(out).tolist()}
+            # (a) the result handed out is kept while the model is used again on other measurements of the same shape;
+            # (b) the basis OBJECT is fitted again by the caller (or by another model sharing it): this model was not refitted, so its
+            #     reconstruction - defined by its own basis_matrix_ - must not move
+            try:
+                held = impl.Held()
+                held.hold("predict result", out)
+                impl.quiet(model.predict, (np.asarray(Y, dtype=float)[::-1] * 2 + 1).copy())
+                for lab, _c in held.disturbed():
+                    chk.violation("impl", "result-handed-out-overwritten", f"{lab}: the array returned by predict changed when predict was called again", ctx)
+                if rng.random() < 0.35 and np.shape(out) == (k, n):
+                    Xb = rng.integers(-24, 25, size=(max(m, 2) + 2, n)) / 8.0
+                    impl.quiet(model.basis.fit, Xb)
+                    again = impl.quiet(model.predict, Y.copy())
+                    chk.count("basis_object_refitted_by_the_caller")
+                    if np.shape(again) != np.shape(out) or not np.allclose(again, out, rtol=1e-9, atol=1e-9):
+                        chk.violation("impl", "predict-follows-refitted-basis-object", "after the caller refitted the basis OBJECT (the model itself was not "
+                                      "refitted) predict no longer reconstructs in the model's own basis_matrix_", ctx)
+            except Exception as e:
+                chk.count("aftercall-rejected:" + type(e).__name__)
             if np.shape(out) != (k, n):
                 chk.violation("impl", "predict-shape", f"a batch of {k} samples gave shape {np.shape(out)}, expected {(k, n)}", ctx)
                 continue
